@@ -352,7 +352,7 @@ PROPS = {
     ),
     "C20": dict(
         custom="run_c20", suites=["asm", "asmfuzz%4", "dis%2", "verify%3", "exec-matrix%4", "exec-memops", "exec-random%2", "exec-calls%3", "api%2", "exec-pageboundary", "helper%3"], level="proof",
-        proof_of=["C01", "C06", "C13", "C14", "C15", "C10", "C19"],
+        proof_of=["C01", "C06", "C13", "C14", "C15", "C10", "C19", "C12"],
         nontrivial=lambda line, impl: True,
         rule="both builds of the crate (default features; default-features = false, i.e. no_std) are driven over the same case files: the whole asm suite, every 4th asmfuzz text, every 2nd dis case, "
              "every 3rd verify byte string, every 4th case of the C01 operation matrix, the memory matrix, every 2nd random program and every 3rd call graph, the programs whose machine code is swept byte by byte across one 4096-byte page (the no_std JIT sizes and fills caller-supplied memory), every 2nd API history of the C10 suite (load / set_verifier / register_helper / jit_compile / execute / execute_jit on the four VM kinds; the Cranelift operations, absent without std, removed), every 3rd case of the helper suite for the helpers that exist in both builds (gather_bytes, memfrob, strcmp) - the interpreter on all of them and the x86-64 JIT "
